@@ -39,6 +39,7 @@ type c09Case struct {
 	ListNoLF bool `json:"list_no_lf,omitempty"`
 
 	formatted bool // the file was put through gofmt for a second look
+	oneFile   bool // generator's wish: all changes in one patch file
 }
 
 func c09Run(dir string, stdin []byte, args ...string) *run.CLIResult {
@@ -784,11 +785,22 @@ func c09Precedence(rt *rapid.T) *c09Case {
 		{"return a * x", "@@\n@@\n-x\n+b * c\n", "@@\n@@\n-a * b * c\n+ok\n"},
 		// a function type as the operand of a conversion
 		{"return conv(func(), h)", "@@\nvar t, v expression\n@@\n-conv(t, v)\n+t(v)\n", "@@\nvar y expression\n@@\n-(func())(y)\n+g(y)\n"},
+		// an elision reproduced twice: the code it stood for hangs in two
+		// places, and a later change applies in both
+		{"return send(conn(1), msg)", "@@\n@@\n-send(...)\n+send(...) || resend(...)\n", "@@\nvar y expression\n@@\n-conn(y)\n+dial(y)\n"},
+		{"return notify(wrap(a), 1)", "@@\n@@\n-notify(...)\n+both(notify(...), audit(...))\n", "@@\nvar y expression\n@@\n-wrap(y)\n+y\n"},
+		// a change that drops an elision, then a change with two elisions on
+		// its changed lines (their pairing is the later change's own affair)
+		{"return foo(must(fail(1)), nil, 2)", "@@\n@@\n-must(fail(...))\n+panicNow()\n", "@@\n@@\n-foo(..., nil, ...)\n+bar(..., nil, ...)\n"},
+		{"return foo(1, nil, 2)", "@@\n@@\n-must(fail(...))\n+panicNow()\n", "@@\n@@\n-foo(..., nil, ...)\n+bar(..., nil, ...)\n"},
 		// what an elision leaves of a list of type arguments: one
 		{"return foo[int, string](1)", "@@\n@@\n-foo[int, ..., string]\n+bar[..., string]\n", "@@\n@@\n-bar[string]\n+baz\n"},
 		{"return foo[int, string, bool](1)", "@@\n@@\n-foo[int, ...]\n+bar[...]\n", "@@\n@@\n-bar[string, bool]\n+baz\n"},
 	}
 	sh := shapes[rapid.IntRange(0, len(shapes)-1).Draw(rt, "shape")]
+	// what one change does to the elisions of another can only happen
+	// within one patch file
+	cs.oneFile = strings.Contains(sh.first, "must(fail(") && rapid.Bool().Draw(rt, "oneFileWish")
 	cs.File = "package p\n\nfunc f(a, x, b, c int, p *T, fs *[]func(int) int) any {\n\tprepare()\n\t" + sh.file + "\n}\n"
 	cs.Changes = []string{sh.first, sh.second}
 	if rapid.Bool().Draw(rt, "third") {
@@ -854,23 +866,24 @@ func TestC09(t *testing.T) {
 		var cs *c09Case
 		switch rapid.IntRange(0, 3).Draw(rt, "family") {
 		case 0:
-			if k := rapid.IntRange(0, 4).Draw(rt, "synthKind"); k <= 1 {
+			if k := rapid.IntRange(0, 6).Draw(rt, "synthKind"); k <= 1 {
 				cs = c09Focused(rt)
-			} else if k == 2 {
-				cs = c09Emptied(rt)
-				switch rapid.IntRange(0, 7).Draw(rt, "otherSynthetic") {
+			} else if k <= 4 {
+				switch rapid.IntRange(0, 10).Draw(rt, "otherSynthetic") {
 				case 0:
 					cs = c09Unprintable(rt)
-				case 1, 2:
+				case 1:
 					cs = c09Shadow(rt)
-				case 3, 4:
+				case 2:
 					cs = c09GeneratedDecls(rt)
-				case 7:
+				case 3:
 					cs = c09Unplaceable(rt)
-				case 5:
+				case 4:
 					cs = c09Signatures(rt)
-				case 6:
+				case 5, 6, 7, 8:
 					cs = c09Precedence(rt)
+				default:
+					cs = c09Emptied(rt)
 				}
 			} else {
 				cs = c09Synthetic(rt)
@@ -887,7 +900,7 @@ func TestC09(t *testing.T) {
 		// split into patch files and choose the channel
 		n := len(cs.Changes)
 		rest := n
-		oneFile := rapid.IntRange(0, 2).Draw(rt, "oneFile") == 0
+		oneFile := rapid.IntRange(0, 2).Draw(rt, "oneFile") == 0 || cs.oneFile
 		for rest > 0 {
 			k := rapid.IntRange(1, rest).Draw(rt, fmt.Sprintf("split%d", len(cs.Split)))
 			if oneFile {
